@@ -257,6 +257,7 @@ def main():
     ap.add_argument("--only-func", default="")
     ap.add_argument("--runs-scale", type=float, default=1.0)
     ap.add_argument("--list", action="store_true")
+    ap.add_argument("--ids", default="", help="only these mutant numbers; results are merged into the stored ones")
     a = ap.parse_args()
     allm = []
     for path, funcs in TARGETS.items():
@@ -267,14 +268,24 @@ def main():
     if a.limit:
         step = max(1, len(allm) // a.limit)
         allm = allm[::step][:a.limit]
-    print(f"{len(allm)} mutants")
+    indexed = list(enumerate(allm))
+    if a.ids:
+        want = {int(x) for x in a.ids.split(",")}
+        indexed = [(i, m) for i, m in indexed if i in want]
+    print(f"{len(indexed)} mutants")
     if a.list:
-        for i, m in enumerate(allm):
+        for i, m in indexed:
             print(i, m["file"], m["func"], m["line"], m["desc"], repr(m["old"][:50]), "->", repr(m["new"][:50]))
         return
     t0 = time.time()
     with ThreadPoolExecutor(max_workers=a.jobs) as ex:
-        results = list(ex.map(lambda im: evaluate(im[1], im[0], a.runs_scale), enumerate(allm)))
+        results = list(ex.map(lambda im: evaluate(im[1], im[0], a.runs_scale), indexed))
+    rp = os.path.join(VERIF, "mutants", "auto_results.json")
+    if a.ids and os.path.exists(rp):
+        old = {r["id"]: r for r in json.load(open(rp))}
+        for r in results:
+            old[r["id"]] = r
+        results = [old[k] for k in sorted(old)]
     os.makedirs(os.path.join(VERIF, "mutants"), exist_ok=True)
     json.dump(results, open(os.path.join(VERIF, "mutants", "auto_results.json"), "w"), indent=1)
     from collections import Counter
